@@ -235,6 +235,7 @@ func try(fn func()) (res string) {
 var nameSeq int
 var manyPersists bool
 var dumpMode bool
+var asofMode bool
 
 func adminOp(r *rand.Rand) {
 	ts := currentTables()
@@ -527,8 +528,44 @@ func liveRow(rec core.Record, cols []string) string {
 	return strings.TrimRight(sb.String(), "\x00\x02")
 }
 
+// live asof (C19): ask for a time that is still in the future, keep working (commits,
+// persists), and ask for the same time again once it has passed
+var pendingAsof []int64
+
+func liveAsof(r *rand.Rand, tot map[string]int) {
+	if base == 0 {
+		return
+	}
+	now := time.Now().UnixMilli()
+	if len(pendingAsof) > 0 && now > pendingAsof[0]+3 {
+		tau := pendingAsof[0]
+		pendingAsof = pendingAsof[1:]
+		// a forced persist: every state record written so far has been logged when it returns
+		db.Persist()
+		rt := db.NewReadTran()
+		got := rt.Asof(tau)
+		if got == 0 {
+			tr.Emit(vh.E("Asof", "kind", "at", "arg", int(tau-base), "t", 0, "off", 0, "dig", ""))
+		} else {
+			dig, _ := digestMeta(db.Store, db19.VerifReadMeta(rt), nil)
+			tr.Emit(vh.E("Asof", "kind", "at", "arg", int(tau-base), "t", int(got-base), "off", int(db19.VerifAsofOff(rt)), "dig", dig))
+		}
+		return
+	}
+	if len(pendingAsof) < 3 {
+		tau := now + int64(5+r.Intn(40))
+		rt := db.NewReadTran()
+		rt.Asof(tau) // future: shows the current state; what matters is that it is not remembered
+		pendingAsof = append(pendingAsof, tau)
+	}
+}
+
 func history(r *rand.Rand, steps int) {
 	for i := 0; i < steps; i++ {
+		if asofMode && r.Intn(5) == 0 {
+			liveAsof(r, nil)
+			continue
+		}
 		if dumpMode && r.Intn(8) == 0 {
 			liveDump(r)
 			continue
@@ -568,6 +605,8 @@ func scenario(r *rand.Rand, sn int, mode string, ntrials int, tot map[string]int
 	tr.Emit(vh.E("Created", "statelen", db19.VerifStateLen, "tail", db19.VerifTailSize))
 	manyPersists = mode == "crash" || mode == "asof"
 	dumpMode = mode == "dump" || mode == "all"
+	asofMode = mode == "asof" || mode == "all"
+	pendingAsof = nil
 	rounds := 1 + r.Intn(3)
 	var img []byte
 	for round := 0; round < rounds; round++ {
